@@ -74,7 +74,7 @@ Section Funcs.
   Variable cb : kind -> nat -> world -> R.
   Hypothesis Hcb : cb_ok cb.
 
-  Lemma ref_ok : forall H J D c w,
+  Lemma ref_ok : forall H J (D : dctx) c w,
     GI H J D w -> live (conns w c) ->
     safe (fun w' _ => GI (addf H c 1) J D w') (conn_ref c w).
   Proof.
@@ -86,15 +86,37 @@ Section Funcs.
     - simpl. tauto.
   Qed.
 
-  Ltac ext := intros; unfold put, updf, set_list, set_jobs, set_svc, set_slots, set_withdrawn, logit, set_log, set_behs, set_prio,
-                set_destroy_called, set_next; simpl;
-              repeat match goal with |- context [Nat.eqb ?a ?b] => destruct (Nat.eqb_spec a b); subst end; try congruence; auto.
+  (* freeing a connection whose destroyed callback has run: the service loses that reference, and goes with it
+     when it was the last one *)
+  Lemma SI_free : forall df c w,
+    SI df w -> (c < next w)%nat -> c_alloc (conns w c) = true -> s_alloc w = true ->
+    SI df (put c (w_alloc false (conns w c))
+             (if s_rc w - 1 =? 0 then set_svc false 0 w else set_svc true (s_rc w - 1) w)).
+  Proof.
+    intros df c w (S1 & S2 & S3 & S4) Lt Ha Hs.
+    destruct (S1 Hs) as (R1 & R2).
+    assert (N : forall w', conns w' = conns w -> next w' = next w ->
+                nalloc (put c (w_alloc false (conns w c)) w') = nalloc w - 1).
+    { intros w' E1 E2. unfold nalloc, put; simpl. rewrite E1, E2. rewrite nalloc_upto_upd_in by auto.
+      rewrite Ha. simpl. lia. }
+    pose proof (nalloc_upto_pos (conns w) c (next w) Lt Ha) as P. fold (nalloc w) in P.
+    destruct (s_rc w - 1 =? 0) eqn:E.
+    - apply Z.eqb_eq in E. unfold SI. rewrite N by reflexivity. simpl.
+      assert (Cr : s_creator w = false) by (destruct (s_creator w); auto; lia).
+      rewrite Cr in R2.
+      assert (Dc : destroy_called w = true).
+      { destruct (destroy_called w) eqn:Ed; auto. specialize (S3 eq_refl). congruence. }
+      repeat split; intros; try discriminate; auto; try lia; try congruence.
+      all: try (destruct (S4 H); congruence).
+    - apply Z.eqb_neq in E. unfold SI. rewrite N by reflexivity. simpl.
+      repeat split; intros; try discriminate; auto; try lia; try (apply S4; auto).
+  Qed.
 
   Lemma phase_destroyed : forall ret p p', phase_step KDestroyed ret p = Some p' -> p' = PDead.
   Proof. intros ret p p'; destruct p; simpl; congruence. Qed.
 
   (* qb_ipcs_connection_unref, general form: the caller says what the world looks like after the decrement *)
-  Lemma unref_ok : forall H J D c w,
+  Lemma unref_ok : forall H J (D : dctx) c w,
     c_alloc (conns w c) = true -> 1 <= c_rc (conns w c) -> D c = false ->
     (c_rc (conns w c) - 1 <> 0 -> GI H J D (put c (w_rc (c_rc (conns w c) - 1) (conns w c)) w)) ->
     (c_rc (conns w c) - 1 = 0 ->
@@ -107,7 +129,9 @@ Section Funcs.
     destruct (c_rc x <? 1) eqn:E1; [apply Z.ltb_lt in E1; lia|].
     destruct (c_rc x - 1 =? 0) eqn:E2.
     - apply Z.eqb_eq in E2. destruct (Hz E2) as (P1 & P2 & G). clear Hn Hz.
-      apply safe_chks. apply safe_bind.
+      assert (Sv : s_alloc w = true).
+      { apply (GI_svc_alive _ _ _ _ c G). simpl. rewrite updf_same. simpl. exact Ha. }
+      apply safe_chks; auto. apply safe_bind.
       set (w2 := set_list _ _).
       destruct (Hcb KDestroyed c w2) as (ret & p' & S1 & S2).
       { unfold w2; simpl. rewrite updf_same. simpl. auto. }
@@ -116,33 +140,47 @@ Section Funcs.
       eapply safe_mono; [| apply (S2 H J (setb D c true))].
       + intros w3 z (_ & G3). simpl.
         pose proof G3 as (A3 & _ & _). specialize (A3 c). rewrite setb_same in A3.
-        apply safe_chk. { eapply CI_d_alloc; eauto. }
-        apply safe_chks. apply safe_bind.
-        assert (G4 : GI H J (setb D c true) (funcs_disconnect c w3)).
+        pose proof (CI_d_alloc _ _ _ _ _ A3) as Al3.
+        apply safe_chk; auto.
+        apply safe_chks. { eapply GI_svc_alive; eauto. } apply safe_bind.
+        assert (G4 : GI H J (setb D c true) (funcs_disconnect c w3) /\ c_alloc (conns (funcs_disconnect c w3) c) = true).
         { assert (Pd : c_ph (conns w3 c) = PDead) by (unfold CI in A3; tauto).
-          unfold funcs_disconnect. destruct (c_st (conns w3 c)); try exact G3.
-          all: eapply GI_put; [exact G3 | intros; auto | rewrite setb_same; apply CI_dead_reg; auto | simpl; tauto ]. }
-        unfold unref_s. apply safe_chks.
-        set (w4 := funcs_disconnect c w3) in *.
-        assert (F : forall a r, safe (fun w5 _ => safe (fun w' _ => GI H J D w')
-                     (chk c w5 (Ok (put c (w_alloc false (conns w5 c)) w5) 0))) (Ok (set_svc a r w4) 0)).
-        { intros a r. simpl. pose proof G4 as (A4 & _ & _). specialize (A4 c). rewrite setb_same in A4.
-          apply safe_chk. { simpl. eapply CI_d_alloc; eauto. }
-          simpl. eapply GI_ext with (w := put c (w_alloc false (conns w4 c)) w4); try (intros; reflexivity).
-          eapply GI_put; eauto.
-          - intros i Hi. rewrite setb_other; auto.
-          - rewrite Hd. apply CI_dead_free; auto.
-          - simpl. tauto. }
-        destruct (s_rc w4 <? 1); [simpl; right; reflexivity|].
-        destruct (s_rc w4 - 1 =? 0); apply F.
-      + eapply GI_ext; [| | | | exact G]; try reflexivity.
-        intros i. unfold w2. ext.
+          unfold funcs_disconnect. destruct (c_st (conns w3 c)); try (split; [exact G3 | exact Al3]).
+          all: split; [eapply GI_put; [exact G3 | intros; auto | rewrite setb_same; apply CI_dead_reg; auto | simpl; tauto | auto
+                                      | reflexivity | reflexivity ]
+                      | simpl; rewrite updf_same; simpl; exact Al3]. }
+        set (w4 := funcs_disconnect c w3) in *. destruct G4 as (G4 & Al4).
+        assert (Sv4 : s_alloc w4 = true) by (eapply GI_svc_alive; eauto).
+        pose proof (GI_alloc_below _ _ _ _ _ G4 Al4) as Lt4.
+        pose proof G4 as (A4 & B4 & C4 & S4). pose proof (A4 c) as Ac4. rewrite setb_same in Ac4.
+        destruct S4 as (S41 & S4r). destruct (S41 Sv4) as (R1 & _).
+        unfold unref_s. apply safe_chks; auto.
+        destruct (s_rc w4 <? 1) eqn:E3; [apply Z.ltb_lt in E3; lia|].
+        assert (Fin : GI H J D (put c (w_alloc false (conns w4 c))
+                          (if s_rc w4 - 1 =? 0 then set_svc false 0 w4 else set_svc true (s_rc w4 - 1) w4))).
+        { unfold GI. split; [|split; [|split]].
+          - intros i. replace (jobs _) with (jobs w4) by (destruct (s_rc w4 - 1 =? 0); reflexivity).
+            replace (s_list _) with (s_list w4) by (destruct (s_rc w4 - 1 =? 0); reflexivity).
+            replace (conns _ i) with (updf (conns w4) c (w_alloc false (conns w4 c)) i)
+              by (destruct (s_rc w4 - 1 =? 0); reflexivity).
+            unfold updf. destruct (Nat.eqb_spec i c).
+            + subst i. rewrite Hd. apply CI_dead_free; auto.
+            + specialize (A4 i). rewrite setb_other in A4 by auto. exact A4.
+          - replace (s_list _) with (s_list w4) by (destruct (s_rc w4 - 1 =? 0); reflexivity). exact B4.
+          - intros i Hi. replace (next _) with (next w4) in Hi by (destruct (s_rc w4 - 1 =? 0); reflexivity).
+            replace (conns _ i) with (updf (conns w4) c (w_alloc false (conns w4 c)) i)
+              by (destruct (s_rc w4 - 1 =? 0); reflexivity).
+            unfold updf. destruct (Nat.eqb_spec i c); [subst i; simpl|]; apply C4; auto.
+          - apply SI_free; auto. split; auto. }
+        destruct (s_rc w4 - 1 =? 0); simpl; (apply safe_chk; [simpl; exact Al4 | simpl; exact Fin]).
+      + eapply GI_ext; [| exact G]. unfold w2. frame.
     - apply Z.eqb_neq in E2. simpl. auto.
   Qed.
 
   (* unref where the caller moves one unit of ownership out of its context: (H,J) -> (H',J') at c *)
-  Lemma unref_gen : forall H J D H' J' c w,
+  Lemma unref_gen : forall H J (D : dctx) H' J' c w,
     GI H J D w -> (forall i, i <> c -> H' i = H i /\ J' i = J i) -> D c = false ->
+    (J' c = 3 -> J c = 3) ->
     live (conns w c) ->
     (c_rc (conns w c) - 1 <> 0 ->
        CI (H' c) (J' c) false (cnt c (jobs w)) (mem_id c (s_list w)) (w_rc (c_rc (conns w c) - 1) (conns w c))) ->
@@ -151,27 +189,32 @@ Section Funcs.
        CI (H' c) (J' c) true (cnt c (jobs w)) false (w_ph PDead (w_rc 0 (conns w c)))) ->
     safe (fun w' _ => GI H' J' D w') (conn_unref cb c w).
   Proof.
-    intros H J D H' J' c w G E Dc L Hn Hz. pose proof G as (A & B & C). pose proof (A c) as Ac.
+    intros H J D H' J' c w G E Dc HJ3 L Hn Hz. pose proof G as (A & B & C & SV). pose proof (A c) as Ac.
     apply unref_ok; auto.
     - eapply CI_live_alloc; eauto.
     - eapply CI_live_rc; eauto.
-    - intros Hn'. eapply GI_put; eauto.
+    - intros Hn'. eapply GI_put; [exact G | | | | | | ].
       + intros i Hi. destruct (E i Hi). auto.
       + rewrite Dc. auto.
       + simpl; tauto.
+      + exact HJ3.
+      + reflexivity.
+      + reflexivity.
     - intros Hz'. destruct (Hz Hz') as (Q1 & Q2 & Q3).
       split; [|split]; auto.
-      unfold GI. split; [|split].
+      unfold GI. split; [|split; [|split]].
       + intros i. simpl. unfold updf. destruct (Nat.eqb_spec i c).
-        * subst. rewrite setb_same, mem_remove_same. exact Q3.
-        * rewrite setb_other, mem_remove_other by auto. destruct (E i n) as [-> ->]. apply A.
-      + simpl. apply desc_remove; auto.
+        * subst. rewrite mem_remove_same. exact Q3.
+        * rewrite mem_remove_other by auto. destruct (E i n) as [-> ->]. apply A.
+      + simpl. apply LI_remove. destruct B as [B1 B2]. split; auto. intros c0 b E0 Hb. destruct (Nat.eq_dec c0 c) as [->|Ne]; [|destruct (E c0 Ne) as [_ E1]; rewrite E1 in E0; eauto]. apply HJ3 in E0. eauto.
       + simpl. intros i Hi. unfold updf. destruct (Nat.eqb_spec i c); auto.
         subst. specialize (C c Hi). unfold live in L. rewrite C in L. tauto.
+      + simpl. eapply SI_frame; [| | | | | | exact SV]; try reflexivity.
+        intros i. simpl. unfold updf. destruct (Nat.eqb_spec i c); subst; auto.
   Qed.
 
   (* dropping a temporary reference held by the current frame *)
-  Lemma unref_held_ok : forall H J D c w,
+  Lemma unref_held_ok : forall H J (D : dctx) c w,
     GI (addf H c 1) J D w -> 0 <= H c ->
     safe (fun w' _ => GI H J D w') (conn_unref cb c w).
   Proof.
@@ -189,7 +232,7 @@ Section Funcs.
   Proof. intros ret p p'; destruct p; simpl; intros E; inversion E; auto. Qed.
 
   (* the SHUTTING_DOWN block of qb_ipcs_disconnect when closed_notified is clear *)
-  Lemma sd_core : forall H J D c w,
+  Lemma sd_core : forall H J (D : dctx) c w,
     c_alloc (conns w c) = true -> c_notified (conns w c) = false ->
     (c_ph (conns w c) = PCre \/ c_ph (conns w c) = PRetry) -> J c = 0 ->
     (forall p' j', closed_outcome p' j' ->
@@ -199,7 +242,10 @@ Section Funcs.
     intros H J D c w Ha Hn Hp Hj Hg. unfold disconnect_sd.
     apply safe_chk; auto. rewrite Hn. cbn [andb].
     set (x := conns w c) in *. set (w1 := put c (w_notified true x) w).
-    apply safe_chks. apply safe_bind.
+    assert (Sv : s_alloc w1 = true).
+    { assert (O2 : closed_outcome PDone 2) by (right; auto).
+      apply (GI_svc_alive _ _ _ _ c (Hg PDone 2 O2)). simpl. rewrite updf_same. simpl. exact Ha. }
+    apply safe_chks; auto. apply safe_bind.
     destruct (Hcb KClosed c w1) as (ret & p' & S1 & S2).
     { unfold w1; simpl. rewrite updf_same. simpl. destruct Hp as [-> | ->]; simpl; congruence. }
     { intros; discriminate. }
@@ -216,10 +262,10 @@ Section Funcs.
         apply safe_chk. { eapply CI_live_alloc; eauto. }
         eapply unref_gen; eauto.
         * intros i Hi. rewrite setf_other; auto.
+        * intros E3. rewrite Hj in E3. discriminate.
         * intros. rewrite Hj. rewrite Dc in Ac. apply CI_done_unref_n; auto.
         * intros. rewrite Hj. rewrite Dc in Ac. eapply CI_done_unref_z; eauto.
-      + eapply GI_ext; [| | | | apply (Hg p' 2 O)]; try reflexivity.
-        intros i. rewrite Cw1. unfold w1. ext.
+      + eapply GI_ext; [| apply (Hg p' 2 O)]. rewrite Cw1. unfold w1. frame.
     - (* asked for a re-run *)
       assert (O : closed_outcome p' 1) by (left; auto).
       eapply safe_mono; [| apply (S2 H (setf J c 1) D)].
@@ -227,30 +273,31 @@ Section Funcs.
         pose proof G2 as (A2 & B2 & C2). pose proof (A2 c) as Ac. rewrite setf_same in Ac.
         assert (L : live (conns w2 c)) by (eapply CI_j_live; eauto; lia).
         assert (Al : c_alloc (conns w2 c) = true) by (eapply CI_live_alloc; eauto).
-        apply safe_chk; auto. apply safe_chks. apply safe_chk; auto. simpl.
-        unfold GI; simpl. split; [|split]; auto.
+        apply safe_chk; auto. apply safe_chks. { eapply GI_svc_alive; eauto. } apply safe_chk; auto. simpl.
+        destruct C2 as (C2 & SV2).
+        unfold GI; simpl. split; [|split; [|split]]; auto.
+        2: { eapply LI_setf_out; [|exact B2]. rewrite Hj; discriminate. }
         intros i. rewrite cnt_app. simpl. destruct (Nat.eqb_spec c i).
         * subst i. rewrite Hj. replace (cnt c (jobs w2) + (1 + 0)) with (cnt c (jobs w2) + 1) by lia.
           apply CI_retry_job; auto.
         * specialize (A2 i). rewrite setf_other in A2 by auto.
           replace (cnt i (jobs w2) + (0 + 0)) with (cnt i (jobs w2)) by lia. auto.
-      + eapply GI_ext; [| | | | apply (Hg p' 1 O)]; try reflexivity.
-        intros i. rewrite Cw1. unfold w1. ext.
+      + eapply GI_ext; [| apply (Hg p' 1 O)]. rewrite Cw1. unfold w1. frame.
   Qed.
 
   (* qb_ipcs_disconnect *)
-  Lemma disconnect_ok : forall H J D c w,
+  Lemma disconnect_ok : forall H J (D : dctx) c w,
     GI H J D w -> live (conns w c) ->
     safe (fun w' _ => GI H J D w') (disconnect true cb c w).
   Proof.
-    intros H J D c w G L. pose proof G as (A & B & C). pose proof (A c) as Ac.
+    intros H J D c w G L. pose proof G as (A & B & C & SV). pose proof (A c) as Ac.
     assert (Al : c_alloc (conns w c) = true) by (eapply CI_live_alloc; eauto).
     assert (Dc : D c = false) by (eapply CI_live_d; eauto).
     unfold disconnect. apply safe_chk; auto.
     destruct (c_st (conns w c)) eqn:S.
     - simpl; auto.
     - (* ACTIVE *)
-      apply safe_chks.
+      apply safe_chks; [eapply GI_svc_alive; eauto|].
       destruct (CI_active_disc _ _ _ _ _ _ Ac L S) as (Q1 & Q2).
       assert (Ew : put c (w_st INACTIVE (conns (funcs_disconnect c w) c)) (funcs_disconnect c w) =
                    put c (w_st INACTIVE (w_reg false (conns w c))) (put c (w_reg false (conns w c)) w)).
@@ -262,12 +309,11 @@ Section Funcs.
       pose proof (CI_live_rc _ _ _ _ _ _ Ac L) as R1.
       destruct (c_rc (conns w c) <? 1) eqn:E1; [apply Z.ltb_lt in E1; lia|].
       destruct (c_rc (conns w c) - 1 =? 0) eqn:E2; [apply Z.eqb_eq in E2; lia|].
-      simpl. eapply GI_ext with (w := put c (w_rc (c_rc (conns w c) - 1) (w_st INACTIVE (w_reg false (conns w c)))) w);
-        try reflexivity.
-      + intros i. unfold w2. ext.
+      simpl. eapply GI_ext with (w := put c (w_rc (c_rc (conns w c) - 1) (w_st INACTIVE (w_reg false (conns w c)))) w).
+      + unfold w2. frame.
       + eapply GI_put; eauto. simpl; tauto.
     - (* ESTABLISHED *)
-      apply safe_chks.
+      apply safe_chks; [eapply GI_svc_alive; eauto|].
       destruct (CI_est_facts _ _ _ _ _ _ Ac L S) as (F1 & F2 & F3 & F4).
       assert (Ew : put c (w_st SHUTTING_DOWN (conns (funcs_disconnect c w) c)) (funcs_disconnect c w) =
                    put c (w_st SHUTTING_DOWN (w_reg false (conns w c))) (put c (w_reg false (conns w c)) w)).
@@ -280,23 +326,24 @@ Section Funcs.
       { rewrite Cw2; simpl; auto. }
       { exact F3. }
       intros p' j' O. eapply GI_ext with
-        (w := put c (w_ph p' (w_notified true (w_st SHUTTING_DOWN (w_reg false (conns w c))))) w); try reflexivity.
-      + intros i. rewrite Cw2. unfold w2. ext.
+        (w := put c (w_ph p' (w_notified true (w_st SHUTTING_DOWN (w_reg false (conns w c))))) w).
+      + rewrite Cw2. unfold w2. frame.
       + eapply GI_put; eauto.
         * intros i Hi. rewrite setf_other; auto.
         * rewrite setf_same. rewrite F3 in Ac. rewrite F4 in *. apply CI_sd_target_est; auto.
         * simpl. unfold closed_outcome in O. unfold live in L. destruct (c_ph (conns w c)); intuition congruence.
+        * rewrite setf_same. unfold closed_outcome in O. intros E3. destruct O as [[_ ->]|[_ ->]]; discriminate.
     - (* SHUTTING_DOWN: closed_notified is set *)
       unfold disconnect_sd. apply safe_chk; auto.
       rewrite (CI_sd_facts _ _ _ _ _ _ Ac L S). simpl. auto.
   Qed.
 
   (* the queued re-run job *)
-  Lemma job_run_ok : forall H J D c t w,
+  Lemma job_run_ok : forall H J (D : dctx) c t w,
     GI H J D w -> jobs w = c :: t ->
     safe (fun w' _ => GI H J D w') (job_run true cb c (set_jobs t w)).
   Proof.
-    intros H J D c t w G Ej. pose proof G as (A & B & C). pose proof (A c) as Ac.
+    intros H J D c t w G Ej. pose proof G as (A & B & C & SV). pose proof (A c) as Ac.
     assert (N : cnt c (c :: t) = 1 /\ cnt c t = 0).
     { apply cnt_le1_head. rewrite <- Ej. unfold CI in Ac. pose proof (cnt_nonneg c (jobs w)). unfold jw in Ac. lia. }
     destruct N as [N1 N2]. rewrite Ej, N1 in Ac.
@@ -310,19 +357,22 @@ Section Funcs.
     { simpl; rewrite updf_same; simpl; auto. }
     { exact Hj. }
     simpl conns. rewrite updf_same. intros p' j' O.
-    eapply GI_ext with (w := put c (w_ph p' (w_notified true (w_notified false (conns w c)))) (set_jobs t w)); try reflexivity.
-    - intros i. ext.
-    - unfold GI; simpl. split; [|split]; auto.
-      intros i. unfold updf. destruct (Nat.eqb_spec i c).
-      + subst i. rewrite setf_same, N2. rewrite Hj in Ac. apply CI_sd_target_job; auto.
-      + rewrite setf_other by auto. specialize (A i). rewrite Ej in A. simpl in A.
-        destruct (Nat.eqb_spec c i); try congruence. simpl in A. auto.
+    eapply GI_ext with (w := put c (w_ph p' (w_notified true (w_notified false (conns w c)))) (set_jobs t w)).
+    - frame.
+    - unfold GI; simpl. split; [|split; [|split]].
+      + intros i. unfold updf. destruct (Nat.eqb_spec i c).
+        * subst i. rewrite setf_same, N2. rewrite Hj in Ac. apply CI_sd_target_job; auto.
+        * rewrite setf_other by auto. specialize (A i). rewrite Ej in A. simpl in A.
+          destruct (Nat.eqb_spec c i); try congruence. simpl in A. auto.
+      + apply LI_setf_in; auto. unfold closed_outcome in O. destruct O as [[_ ->]|[_ ->]]; discriminate.
       + intros i Hi. unfold updf. destruct (Nat.eqb_spec i c); auto.
         subst i. rewrite (C c Hi) in P. discriminate.
+      + eapply SI_frame; [| | | | | | exact SV]; try reflexivity.
+        intros i. simpl. unfold updf. destruct (Nat.eqb_spec i c); subst; auto.
   Qed.
 
   (* qb_ipcs_event_send / response_send *)
-  Lemma srv_send_ok : forall H J D c w,
+  Lemma srv_send_ok : forall H J (D : dctx) c w,
     GI H J D w -> live (conns w c) ->
     safe (fun w' _ => GI H J D w') (srv_send cb c w).
   Proof.
@@ -331,8 +381,9 @@ Section Funcs.
     unfold srv_send. apply safe_chk. { eapply CI_live_alloc; eauto. }
     apply safe_bind. eapply safe_mono; [| apply ref_ok; eauto].
     intros w1 z1 G1. cbv beta. pose proof G1 as (A1 & _ & _). specialize (A1 c). rewrite addf_same in A1.
-    apply safe_chk. { eapply CI_live_alloc; eauto. eapply CI_h_live; eauto. lia. }
-    apply safe_chks. apply unref_held_ok; auto.
+    assert (Al1 : c_alloc (conns w1 c) = true) by (eapply CI_live_alloc; eauto; eapply CI_h_live; eauto; lia).
+    apply safe_chk; auto.
+    apply safe_chks; [apply (GI_svc_alive _ _ _ _ c G1 Al1)|]. apply unref_held_ok; auto.
   Qed.
 
 End Funcs.
